@@ -134,20 +134,28 @@ def gnuLoop (t : GnuHashTable) (name : Slice) (hash : Nat) (symtab : Table Symbo
             | .ok s => if s.beqBytes name then (.ok (some (symIdx, symbol)), steps) else continue_ ()
       else continue_ ()
 
+/-- bits per bloom word: 32 for ELF32, 64 for ELF64 -/
+def bloomWidth : Class → Nat
+  | .ELF32 => 32
+  | .ELF64 => 64
+
+/-- the bloom filter viewed as a table of class-sized words -/
+def GnuHashTable.bloomTable (t : GnuHashTable) : Table Nat :=
+  match t.cls with
+  | .ELF32 => u32Table t.little t.cls t.bloom
+  | .ELF64 => u64Table t.little t.cls t.bloom
+
 def GnuHashTable.findSteps (t : GnuHashTable) (name : Slice) (symtab : Table Symbol)
     (strtab : Slice) : Out (Option (Nat × Symbol)) × Nat :=
   if t.buckets.isEmpty || t.hdr.nbloom == 0 then (.ok none, 0) else
   let hash := gnuHash name
-  let bloomWidth : Nat := match t.cls with | .ELF32 => 32 | .ELF64 => 64
+  let bloomWidth : Nat := bloomWidth t.cls
   -- `(hash / bloom_width) % nbloom` — unchecked `%`
   match umod (hash / bloomWidth) t.hdr.nbloom with
   | .panic => (.panic, 0)
   | .err e => (.err e, 0)
   | .ok bloomIdx =>
-    let bloomTable := match t.cls with
-      | .ELF32 => u32Table t.little t.cls t.bloom
-      | .ELF64 => u64Table t.little t.cls t.bloom
-    match bloomTable.get bloomIdx with
+    match t.bloomTable.get bloomIdx with
     | .err e => (.err e, 0)
     | .panic => (.panic, 0)
     | .ok filter =>
